@@ -64,3 +64,6 @@ META = {
                "rational step-up / inverse-Levinson oracle, exhaustive small "
                "grids + random cases",
 }
+
+# EXTENSION families added after the seeded-change rounds
+META["rule"] += (" Added after the seeded-change rounds: " '(c11_x) denominators of order 100..104 built by exact step-up with one exactly-zero low-stage reflection coefficient and any gain' ".")
